@@ -395,6 +395,25 @@ func runC17(c *engine.Ctx) {
 	// ---- R5 ----
 	c.Rule("R5", "handleConnection: the first message is accepted only as *Login, *NewWorkConn or *NewVisitorConn; a read error, any other message type and every refused request close the connection")
 	if hc := fn(c, "server.Service.handleConnection"); hc != nil {
+		// the first-message switch may have been moved, with the rest of the body, into a step split out of
+		// handleConnection (a helper with a named error result and one deferred close): judge the function that hosts it
+		countAsserts := func(g *ssa.Function) int {
+			k := 0
+			engine.ForEachInstr(g, func(in ssa.Instruction) {
+				if ta, ok := in.(*ssa.TypeAssert); ok && ta.CommaOk {
+					k++
+				}
+			})
+			return k
+		}
+		if countAsserts(hc) < 2 {
+			for _, g := range allAnon(hc) {
+				if g.Parent() == nil && countAsserts(g) >= 2 {
+					hc = g
+					break
+				}
+			}
+		}
 		accept := map[string]bool{"*msg.Login": true, "*msg.NewWorkConn": true, "*msg.NewVisitorConn": true}
 		var asserted []string
 		engine.ForEachInstr(hc, func(in ssa.Instruction) {
